@@ -32,6 +32,7 @@ CRATES = {
     "cdbc": {
         "dir": "file-formats/database/wow-cdbc",
         "attach": [("src/writer.rs", "cdbc/writer.rs", "verif_kani_writer", ""),
+                   ("src/parser.rs", "cdbc/parser.rs", "verif_kani_parser", ""),
                    ("src/lib.rs", "env/vmap.rs", "verif_vmap", "pub(crate)")],
         # scratch copy only: the writer's string-offset table becomes the association-list model of HashMap
         "rewrite": [("src/writer.rs", r"^use std::collections::HashMap;$", "#[cfg(kani)] use crate::verif_vmap::VMap as HashMap;\n#[cfg(not(kani))] use std::collections::HashMap;"),
@@ -131,7 +132,7 @@ H("C04", "mpq", _C, "quick", "C04.c hashes invariant under ASCII case and slash 
   "N <= 2", assumes=["fold(a[i]) == fold(b[i]) for all i (fold = '/'->'\\\\', ASCII upper-case)", "bytes < 0x80"])
 H("C04", "mpq", _C, "thorough", "C04.c fold invariance, 3- and 4-byte names", ["c04c_fold_invariance_len3", "c04c_fold_invariance_len4"],
   ["crypto::hash::hash_string", "crypto::jenkins::jenkins_one_at_a_time", "crypto::jenkins::jenkins_hashlittle2"],
-  "as above, N in {3,4}", "N in {3,4}", assumes=["fold-equal ASCII names"], timeout=1500)
+  "as above, N in {3,4}", "N in {3,4}", assumes=["fold-equal ASCII names"], timeout=3600)
 H("C04", "mpq", _C, "quick", "C04.d decrypt_block inverts encrypt_block, every key and buffer",
   ["c04d_cipher_inverse_w1", "c04d_cipher_inverse_w2", "c04d_cipher_inverse_w3", "c04d_cipher_inverse_w4",
    "c04d_cipher_inverse_rev_w2"],
@@ -226,7 +227,7 @@ H("C03", "mpq", _K, "quick", "C03.a store-raw rule of compress() for every codec
 H("C03", "mpq", _K, "quick", "canary", ["c03a_canary"], ["compression::compress::compress"], "vacuity twin", "-", expect="canary",
   stubs=["compress_internal -> nondeterministic codec"], abstraction_stubs=["compress_internal"])
 H("C03", "mpq", _S, "quick", "C03.c every size pair the compressor can emit is accepted by the default limits (d <= 2 MiB)",
-  ["c03c_accept_%s_2mib" % m for m in ("zlib", "bzip2", "lzma", "sparse", "pkware", "huffman", "adpcm_zlib")],
+  ["c03c_accept_%s_2mib" % m for m in ("zlib", "bzip2", "lzma", "sparse", "sparse_exact", "pkware", "huffman", "adpcm_zlib")],
   ["security::validate_decompression_operation", "security::validate_file_bounds", "security::detect_compression_bomb_patterns",
    "security::AdaptiveCompressionLimits::calculate_limit", "security::SessionTracker::check_session_limits_with_addition"],
   "compressed payload size c and true size d: u64 symbolic", "3 <= d <= 2^21, 1 <= c, c + 1 < d (store-raw rule)",
@@ -293,6 +294,17 @@ H("C17", "cdbc", _D, "quick", "C17.b header the writer emits is accepted by the 
 # c17c_strings_roundtrip_with_duplicate (three records, a repeated string) is NOT registered: even with HashMap replaced by the
 # association-list model and UTF-8 validation stubbed it does not finish in 40 minutes (write_records clones the schema and
 # resolves every string reference through heap-resident data); string de-duplication stays outside the C17 claim.
+_DP = "verif_kani_parser"
+H("C17", "cdbc", _DP, "quick", "C17.d key lookups return the record carrying the key: hashed map built by RecordSet::new, for every combination of keys incl. duplicates; absent keys are not found",
+  ["c17d_key_lookup_hashed_n2", "c17d_key_lookup_hashed_n3"],
+  ["parser::RecordSet::new", "parser::RecordSet::get_record_by_key"],
+  "N records, all u32 keys symbolic (duplicates allowed), probe key symbolic", "N in {2,3} records of one UInt32 key field (4 records: CBMC runs out of memory in the propositional reduction)",
+  stubs=[FMT, RS, "HashMap -> association-list model in the scratch copy (catalogue rewrite)"], timeout=900)
+H("C17", "cdbc", _DP, "quick", "C17.d binary-searched key lookup from any state create_sorted_key_map can leave: returns a record carrying the key whenever one exists, nothing otherwise",
+  ["c17d_key_lookup_bsearch_n2", "c17d_key_lookup_bsearch_n3", "c17d_key_lookup_bsearch_n4", "c17d_key_lookup_bsearch_n5"],
+  ["parser::RecordSet::get_record_by_key_binary_search"],
+  "N records, all u32 keys symbolic (duplicates allowed); sorted_key_indices = any permutation of (key, index) pairs ascending by key; probe key symbolic",
+  "N in {2,3,4,5}", assumes=["postcondition of slice::sort_by_key (a key-ascending permutation) instead of executing std's sort"], stubs=[FMT, RS], timeout=900)
 H("C17", "cdbc", _D, "quick", "canary", ["c17_canary"], ["field_parser::parse_field_value"], "vacuity twin", "-", expect="canary", stubs=[FMT, RS])
 H("C05", "cdbc", _D, "quick", "C05.dbc header parsers and string lookups are total (no panic/overflow), derived offsets do not overflow",
   ["c05_dbc_header_total", "c05_dbc_wdb2_header_total", "c05_dbc_wdb5_header_total", "c05_dbc_string_block_total"],
